@@ -54,6 +54,7 @@ class Contract:
         exposes=None,
         defines=(),
         exit_asserts=(),
+        stop_at=None,
     ):
         self.target = target
         self.params = dict(params or {})
@@ -85,6 +86,7 @@ class Contract:
         self.exposes = dict(exposes or {})  # callee local -> type; visible in ensures as _x_<name> (existential for callers)
         self.defines = list(defines)  # naming clauses (result == spec_fn(...)): assumed by callers, not checked
         self.exit_asserts = list(exit_asserts)  # cuts: proved from the path condition at exit, then used for the ensures
+        self.stop_at = stop_at  # region contract: the function is cut before the first statement starting with this text
         self.bounded = bounded  # reason string: contract kept for run-time monitors only (not proved)
         self.out_params = dict(out_params or {})  # param name -> spec of its value at exit (in-place mutation)
 
